@@ -18,6 +18,7 @@ package override
 
 import (
 	"fmt"
+	"path"
 	"strconv"
 	"strings"
 
@@ -130,15 +131,24 @@ func volumeIndexer(y any, p tree.Path) (string, error) {
 		if !ok {
 			return "", fmt.Errorf("service volume %s is missing a mount target", p)
 		}
-		return target, nil
+		return cleanMountTarget(target), nil
 	case string:
 		volume, err := format.ParseVolume(value)
 		if err != nil {
 			return "", err
 		}
-		return volume.Target, nil
+		return cleanMountTarget(volume.Target), nil
 	}
 	return "", nil
+}
+
+// cleanMountTarget is the container path a mount ends up at: `/data/` and `/data` are the same mount point,
+// whether the entry was already put in canonical form (loading several files) or not yet (extends)
+func cleanMountTarget(target string) string {
+	if target == "" {
+		return ""
+	}
+	return path.Clean(target)
 }
 
 func deviceMappingIndexer(y any, p tree.Path) (string, error) {
